@@ -115,6 +115,7 @@ func (s *snapshots) open() (*snapshot, error) {
 	// touched: a newer snapshot published meanwhile must not remove them
 	// (applyRetain runs after the index was moved, under usedMu)
 	s.usedMu.Lock()
+	verifPointSnaps(s, "snap.open.counting")
 	index, _ := s.latest()
 	s.used[index]++
 	s.usedMu.Unlock()
